@@ -36,7 +36,7 @@ type Check struct {
 	info      map[string]interface{}
 	assum     map[string]bool
 	fu        *feeUnits
-	msOnlySuper bool // moduleServicePath decides the mode rule only
+	msOnly    string // moduleServicePath decides only the named part ("super", "state")
 	cw        []*ctxWrite
 }
 
